@@ -22,7 +22,12 @@ func subCheck(t *testing.T, id, rule string, floor int, req func(run *ev.Run)) {
 	nHist, nOps := run.Pick(10, 150), run.Pick(500, 1500)
 	for h := 0; h < nHist; h++ {
 		var sm *SubMon
-		s := History(t, run, profSubs(), h, nOps, func(hid string) []Monitor {
+		prof := profSubs()
+		if h%2 == 1 {
+			prof.Name = "subsdirected"
+			prof.Prologue = prologueFailedRenewal
+		}
+		s := History(t, run, prof, h, nOps, func(hid string) []Monitor {
 			sm = NewSubMon(run, hid, id)
 			return []Monitor{sm, &EventCounter{Run: run}}
 		})
